@@ -62,6 +62,16 @@ def projects(draw):
             rel = (d + "/" if d else "") + stem + str(k) + ".mamba"
         used_paths.add(rel)
         files.append({"rel": rel, "uses": uses, "text": file_text(i, uses)})
+    # files without any definition: zero bytes, only a newline, only a comment (nothing imports them)
+    for _ in range(draw(st.sampled_from([0, 0, 1, 1, 2]))):
+        d = draw(st.sampled_from(DIRS))
+        stem = draw(st.sampled_from(["__init__", "aaa_empty", "m_blank", "zz_none"]))
+        rel = (d + "/" if d else "") + stem + ".mamba"
+        if rel in used_paths:
+            continue
+        used_paths.add(rel)
+        files.append({"rel": rel, "uses": [], "text": draw(st.sampled_from(["", "", "\n", "# only a comment\n"]))})
+    n = len(files)
     fault = None
     if draw(st.integers(0, 99)) < 40:
         fi = draw(st.integers(0, n - 1))
@@ -73,6 +83,11 @@ def projects(draw):
         "src_dir": draw(st.sampled_from([None, None, "source", "in.put"])),
         "out_dir": draw(st.sampled_from([None, None, "out", "build.d"])),
         "prepopulated": draw(st.booleans()),
+        # history: outputs of an earlier run that were longer than the new ones lie at the same paths
+        "stale_long": [draw(st.booleans()) for _ in range(n)],
+        # history: after a successful run one file is edited (shorter or longer) and the project is transpiled again
+        "second_run": draw(st.sampled_from([None, None, "shorter", "longer", "same"])),
+        "edit_file": draw(st.integers(0, n - 1)),
         "annotate": draw(st.booleans()),
         "crlf": draw(st.integers(0, 9)) == 0,
     }
@@ -101,11 +116,14 @@ class C13:
             "each file defining a class and a function and using those of other files through `from m import X` (acyclic, "
             "independent of path order), a non-.mamba bystander file and an empty directory; 40% with one faulty file (lexical, "
             "syntax, type, undefined name); default and custom source/output directory names; fresh and pre-populated output "
-            "directory; LF and CRLF sources. Oracle: (1) success writes exactly {rel.py} under the output directory with the "
+            "directory (also with longer outputs of an earlier run lying at the output paths); files without any statement (zero "
+            "bytes, a newline, a comment); LF and CRLF sources; histories: after a successful run one file is made shorter / longer / "
+            "left as it is and the project is transpiled again into the same output directory. Oracle: (1) success writes exactly {rel.py} under the output directory with the "
             "content mamba_to_python returns, touches nothing else, every output compiles; (2) a faulty file gives diagnostics "
             "that name that file and no other and no .py is created or modified; (3) every permutation of the file list (<=120) "
             "gives the same verdict and outputs; (4) adding an unrelated file changes nothing for the others; (5) removing a "
-            "file whose definitions are used makes the project fail. Non-trivial: >=2 files with a cross-file use, or a faulty "
+            "file whose definitions are used makes the project fail; (6) after the second run of a history every output again equals "
+            "what mamba_to_python returns for the current sources and nothing else changed. Non-trivial: >=2 files with a cross-file use, or a faulty "
             "file; distinct by SHA-1 of the project.")
     assumptions = [
         "the library entry point mamba::transpile_dir is what the binary calls with the parsed -i/-o/-a options (src/main.rs)",
@@ -152,6 +170,13 @@ class C13:
                 fh.write("stale = 1\n")
             with open(os.path.join(out_root, py_rel(files[0]["rel"]).split("/")[-1]), "w") as fh:
                 fh.write("previous = True\n")
+            for f, long_ in zip(files, case.get("stale_long") or []):
+                if long_:
+                    p = os.path.join(out_root, py_rel(f["rel"]))
+                    os.makedirs(os.path.dirname(p), exist_ok=True)
+                    with open(p, "w") as fh:
+                        fh.write("".join("stale_line_%d = %d\n" % (k, k) for k in range(400)))
+                    stats.inc("stale_long_output_in_place")
         before = snapshot(root)
         ann = case["annotate"]
         fault = case["fault"]
@@ -251,6 +276,9 @@ class C13:
                 if "ok" in pr:
                     return {"what": "the project is still accepted after removing %s, whose class and function other files use"
                                     % victim}
+            # (6) history: edit one file, transpile again into the same output directory
+            if case.get("second_run"):
+                return self._second_run(worker, case, stats, root, src_root, out_name, listed, eol, ann)
             return None
         # faulty project
         if oc == "ok":
@@ -273,6 +301,48 @@ class C13:
         for f in files:
             if f["rel"] != bad_rel and (src_name + "/" + f["rel"]) in text and f["rel"] not in bad_rel:
                 return {"what": "diagnostics name %s, which has no fault" % f["rel"], "diagnostics": diags[:3]}
+        return None
+
+    def _second_run(self, worker, case, stats, root, src_root, out_name, listed, eol, ann):
+        how = case["second_run"]
+        f = case["files"][case["edit_file"] % len(case["files"])]
+        if how == "shorter":
+            lines = f["text"].split("\n")
+            keep = [l for l in lines if not (l.startswith("print(") or l.startswith("def own") or l.startswith("def o"))]
+            new_text = "\n".join(keep)
+        elif how == "longer":
+            new_text = f["text"] + "".join("print(%d)\n" % k for k in range(30))
+        else:
+            new_text = f["text"]
+        texts = {g["rel"]: (new_text if g is f else g["text"]) for g in case["files"]}
+        with open(os.path.join(src_root, f["rel"]), "w", newline="") as fh:
+            fh.write(new_text.replace("\n", eol))
+        before = snapshot(root)
+        r = worker.call({"op": "transpile_dir", "dir": root, "src": case["src_dir"], "target": case["out_dir"], "annotate": ann})
+        stats.inc("second_run:" + how)
+        if outcome(r) != "ok":
+            if outcome(r) == "err":
+                return {"what": "second run after an edit (%s) of %s is rejected" % (how, f["rel"]), "diagnostics": r.get("err", [])[:2]}
+            return None
+        after = snapshot(root)
+        req_files = [[texts[g["rel"]].replace("\n", eol), os.path.join(src_root, g["rel"])] for g in listed]
+        mem = worker.call({"op": "transpile", "files": req_files, "dir": src_root, "annotate": ann})
+        if "ok" not in mem or len(mem["ok"]) != len(listed):
+            return {"inconclusive": True, "why": "in-memory pipeline disagrees on verdict in the second run", "reply": str(mem)[:300]}
+        expected = set(os.path.join(out_name, py_rel(g["rel"])) for g in listed)
+        changed = [p for p, h in after.items() if before.get(p) != h and not p.endswith("/")]
+        extra = [p for p in changed if p not in expected]
+        if extra:
+            return {"what": "second run created or modified files other than the outputs: %s" % sorted(extra)[:5]}
+        for g, text in zip(listed, mem["ok"]):
+            p = os.path.join(root, out_name, py_rel(g["rel"]))
+            if not os.path.exists(p):
+                return {"what": "second run: no output for %s" % g["rel"]}
+            with open(p, newline="") as fh:
+                got = fh.read()
+            if got != text.replace("\r\n", "\n"):
+                return {"what": "after a second run (edit: %s of %s) the content of %s is not what mamba_to_python returns for the "
+                                "current source" % (how, f["rel"], py_rel(g["rel"])), "written": got[-600:], "returned": text[-600:]}
         return None
 
     def _unstable(self, worker, files, src_root, ann):
